@@ -144,6 +144,46 @@ Theorem C18_range_verify_digest :
 Proof. intros point padd smul xcoord G n S. exact (verify_digest_range point padd smul xcoord G n). Qed.
 Print Assumptions C18_range_verify_digest.
 
+(* ---- no TypeError at the point at infinity ------------------------------------ *)
+
+(* Public_key.verifies never raises for prime n: out-of-range (r, s) and the case
+   u1*G + u2*Q = INFINITY (crafted r = -e/d mod n; INFINITY has no x-coordinate) both
+   return False.  No group law is needed. *)
+Theorem C18_verifies_total :
+  forall (point : Type) padd smul xcoord (G : point) n, prime n ->
+  forall Q e r s, exists b, verifies point padd smul xcoord G n Q e r s = Ok b.
+Proof. intros point padd smul xcoord G n Hp. exact (verifies_total point padd smul xcoord G n Hp). Qed.
+Print Assumptions C18_verifies_total.
+
+Theorem C18_verifies_infinity :
+  forall (point : Type) padd smul xcoord (G : point) n Q e r s c,
+  1 <= r <= n - 1 -> 1 <= s <= n - 1 -> inverse_mod s n = Ok c ->
+  xcoord (padd (smul (verifies_u1 e c n) G) (smul (verifies_u2 r c n) Q)) = None ->
+  verifies point padd smul xcoord G n Q e r s = Ok false.
+Proof. exact verifies_infinity. Qed.
+Print Assumptions C18_verifies_infinity.
+
+(* hence verify_digest raises only BadSignatureError (or BadDigestError / ValueError for the
+   digest argument itself) for every decoder that raises only its documented errors *)
+Theorem C18_verify_digest_errors :
+  forall (point : Type) padd smul xcoord (G : point) n, prime n ->
+  forall (S : Type) (sigdecode : S -> Z -> sres (Z * Z)) Q sig digest allow e,
+  (forall e', sigdecode sig n = SErr e' -> e' = SMalformed \/ e' = SBase EUnexpectedDER) ->
+  verify_digest point padd smul xcoord G n sigdecode Q sig digest allow = SErr e ->
+  e = SBadSig \/ e = SBadDigest \/ e = SBase EValue.
+Proof.
+  intros point padd smul xcoord G n Hp S. exact (verify_digest_errors point padd smul xcoord G n Hp).
+Qed.
+Print Assumptions C18_verify_digest_errors.
+
+(* the crafted signature on Z_13: d = 5, e = 9, r = -e/d = 6, any s: u1*G + u2*Q = 0 *)
+Example C18_infinity_example :
+  zn_x 13 (zn_padd 13 (zn_smul 13 (verifies_u1 9 2 13) 1) (zn_smul 13 (verifies_u2 6 2 13) (zn_smul 13 5 1))) = None /\
+  inverse_mod 7 13 = Ok 2 /\
+  verifies Z (zn_padd 13) (zn_smul 13) (zn_x 13) 1 13 (zn_smul 13 5 1) 9 6 7 = Ok false.
+Proof. repeat split; vm_compute; reflexivity. Qed.
+Print Assumptions C18_infinity_example.
+
 (* ---- digest -------------------------------------------------------------- *)
 
 (* allow_truncate: the number signed is bits2int(digest, bit_length(n)) -- for every digest
